@@ -144,7 +144,7 @@ def string_decls(tier='quick') -> List[Decl]:
         for vname, vals, vn in vsets:
             if tier == 'quick' and len(chain) == 3 and vname not in ('nov', 'all_a', 'minmax'):
                 continue
-            derives = STRING_VIEW_DERIVES + STRING_CONV_DERIVES + (['From'] if not vals else [])
+            derives = STRING_VIEW_DERIVES + (STRING_CONV_DERIVES if vals else ['From', 'FromStr', 'Display'])
             props = ['C01', 'C03', 'C05', 'C07', 'C13']
             if 'with' not in chain:
                 props.append('C11')
@@ -193,3 +193,7 @@ def any_decls(tier='quick') -> List[Decl]:
 
 def verus_catalogue(tier='quick', seed=0) -> List[Decl]:
     return int_decls(tier) + string_decls(tier) + any_decls(tier)
+
+
+def all_decls(tier='thorough', seed=0):
+    return verus_catalogue(tier, seed)
